@@ -71,3 +71,10 @@ def ordinals(items):
         out.append(seen[k])
         seen[k] += 1
     return out
+
+
+def ai_unavailable(R, e):
+    """The grammar abstract interpreter did not reach a fixpoint on this tree: fail closed."""
+    R.ob("AI-BUDGET", "grammar abstract interpreter reaches a fixpoint within its budget", False, "crates/oq3_parser/src/grammar",
+         f"the token-kind abstract interpreter did not converge ({e}); on the unchanged tree it converges in about two minutes. The number of contexts grows without bound when some path "
+         "of a grammar function leaks a marker (neither completed nor abandoned) or a summary keeps changing; every obligation that depends on the interpreter is undecided on this tree")
